@@ -2,12 +2,12 @@
 """Writes MANIFEST.json from the table below (kept in one place so it stays valid)."""
 import json, os
 ROOT = os.path.dirname(os.path.dirname(os.path.abspath(__file__)))
-SWEEP_NOTE = ("trusted: the reference model in mc/src/refmatch.rs (ES2025 22.2.2 transcribed, cross-checked against V8 by tools/v8_crosscheck) "
+SWEEP_NOTE = ("beyond the small-scope enumeration every sweep also runs size-parameterised families (about 60 templates at sizes around 16..257, thorough to 1025: long literals, many groups / alternatives, counts, classes of a hundred intervals, deep nesting, long haystacks) and a prefilter / alignment family; trusted: the reference model in mc/src/refmatch.rs (ES2025 22.2.2 transcribed, cross-checked against V8 by tools/v8_crosscheck) "
               "and the oracle fold tables (ICU 78.2 / Unicode 17, cross-checked against Rust std 17 and regex-syntax 16); bounded by the pattern sizes, "
               "haystack lengths and alphabets that evidence/<id>.json lists per profile")
 checks = {
  "C01": ("model_checking", "bounded-exhaustive enumeration of (pattern AST, flags, haystack, start) against an ES2025 reference matcher",
-         "Every pattern AST of nineteen focused profiles (plus every token string the reference parser accepts) up to a size bound x every flag set of the profile x every haystack up to a length bound x every start offset is run through the real compiler and the public find_from entry point of the backtracking executor and compared (range and every capture) with a clause-by-clause transcription of the ECMAScript pattern semantics; every pattern is also compiled through the string entry points (with_flags(&str,&str), new, FromStr), which must build the same program. Exhaustive within the stated bounds; says nothing beyond them.", "4 C01"),
+         "Every pattern AST of nineteen focused profiles (plus every token string the reference parser accepts) up to a size bound x every flag set of the profile x every haystack up to a length bound x every start offset is run through the real compiler and the public find_from entry point of the backtracking executor and compared (range and every capture) with a clause-by-clause transcription of the ECMAScript pattern semantics; every pattern is also compiled through the string entry points (with_flags(&str,&str), new, FromStr), which must build the same program; plus every string over {[ ] ( ) a \\ 1} up to length 8 (9) with a group and a backslash, read semantically (how the group pre-scan makes \\1 a backreference or an octal escape). Exhaustive within the stated bounds; says nothing beyond them.", "4 C01"),
  "C02": ("model_checking", "bounded-exhaustive differential exploration: backtracking executor vs PikeVM on the same program",
          "Same enumerated space as C01; the whole match sequence of the backtracking executor is compared with the PikeVM executor (which clones state at every split and so has no undo log), in UTF-8 mode and, on ASCII haystacks, in ASCII mode.", "4 C02"),
  "C03": ("model_checking", "bounded-exhaustive differential exploration: optimised vs no_opt pipeline",
@@ -27,17 +27,17 @@ checks.update({
  "C17": ("model_checking", "exhaustive enumeration of replacement templates x a menu of match sequences against a splice-and-expand model",
          "All templates over a 10-character alphabet up to length 5 (6 thorough), all sequences of <= 4 (5) whole-reference tokens, and $ followed by every digit run of length <= 7 (9) over {0 1 2 6 9}, x 24 (pattern, haystack) pairs covering no/one/adjacent/empty matches, multibyte boundaries, non-participating, named and duplicate-named groups: replace and replace_all must equal the ten-line model applied to the match sequence of the reference parser + reference matcher (nothing read back from the subject); closure variants with identity and constant closures and a closure that renders everything it can read from its Match; every call under fuel.", "4 C17"),
  "C18": ("model_checking", "exhaustive enumeration of strings s, flag sets and derived haystacks against substring search",
-         "All strings over a 29-character alphabet (every syntax character, class punctuators, case pairs and letters with three- and four-member case classes, multibyte, newline) up to length 3 (4 thorough) x all 24 flag sets x haystacks derived from s (occurrences, near misses, every member of each character's case class): escape(s) compiles, only inserts backslashes, and its matches are exactly the (case-insensitive under i) occurrences of s.", "4 C18"),
+         "All strings over a 29-character alphabet (every syntax character, class punctuators, case pairs and letters with three- and four-member case classes, multibyte, newline) up to length 3 (4 thorough) plus 55 long strings (caseless runs of 8..40 characters alone, before / after one cased letter) with every single-position near miss, x all 24 flag sets x haystacks derived from s (occurrences, near misses, every member of each character's case class): escape(s) compiles, only inserts backslashes, and its matches are exactly the (case-insensitive under i) occurrences of s.", "4 C18"),
 })
 checks.update({
  "C10": ("model_checking", "complete enumeration of the code space (0..=0x10FFFF x both modes) against an independent Unicode 17 oracle, at hook level and through the public API",
          "Exhaustive, not bounded, at hook level: for every code point and both modes the partition induced by Canonicalize, the compile-time literal expansion and the class closure equal the oracle derived from ICU 78.2. Through the public API /c/, /[c]/, /[^c]/ (with the program's start predicate and with it removed), backreference, \\w \\W [\\w], and every \\b / \\B position with the character on either side (both executors), under i, iu, iv for every candidate code point (quick) and /c/ for every scalar over the all-scalars haystack (thorough).", "4 C10"),
  "C11": ("model_checking", "complete enumeration: every candidate property expression x {u,v} x {\\p,\\P} for acceptance, every accepted expression over all scalar values for membership, a judged universe of 73k strings for properties of strings",
-         "Acceptance of 42k candidate expressions equals the ES tables as implemented by V8; each of the 1,714 accepted expressions is matched over a haystack holding every scalar value and must denote exactly the ICU 78.2 (Unicode 17) set, \\P its complement, with the program's start predicate and with it removed; every accepted expression is also used with both polarities in one pattern (5 templates x 6 member / non-member haystack shapes); properties of strings are compared by membership over a universe of 73,056 judged strings, and every member string must be the whole first match of the unanchored bare, in-class and lookbehind forms (longest first).", "4 C11"),
+         "Acceptance of 42k candidate expressions equals the ES tables as implemented by V8; each of the 1,714 accepted expressions is matched over a haystack holding every scalar value and must denote exactly the ICU 78.2 (Unicode 17) set, \\P its complement, with the program's start predicate and with it removed; every accepted expression is also used with both polarities in one pattern (5 templates x 6 member / non-member haystack shapes); pairs of 16 large properties in one class (union, &&, --, negated union) must equal the algebra of the two oracle sets on every interval edge; pairs of properties of strings in five set-operation templates with nested unions; properties of strings are compared by membership over a universe of 73,056 judged strings, and every member string must be the whole first match of the unanchored bare, in-class and lookbehind forms (longest first).", "4 C11"),
 })
 checks.update({
  "C07": ("exploration", "exhaustive enumeration of all short token / raw code point strings in-process, plus a finite family of size-parameterised shapes each in a resource-limited child process",
-         "Every string over a 34-token alphabet up to length 4 (5 thorough) and every raw code point string (surrogates, NUL, U+10FFFF) up to length 5 (6) x 7 flag sets must compile to Ok or Err under catch_unwind with a 10 s watchdog; likewise every prefix / suffix of every C08 seed pattern with 15 cut-off construct openings, and every code point of interest (all with a case partner, encoding-length boundary neighbours, 0..=U+0100; thorough: all 1,114,112) substituted into 20 templates x {optimised, no_opt}, and every run over three digits up to length 10 in 18 numeric contexts; 40 adversarial shapes x sizes up to 65536 (10^6 thorough) x {\"\",u,v} run in child processes (8 MiB / 2 MiB stacks): a stack-exhaustion abort, a panic or a timeout on a small input is a violation; an allocation failure under the 6 GiB cap is a violation for patterns of at most 2^20 code points; runs cut by the harness's caps beyond that envelope are reported as caps, not verdicts.", "4 C07"),
+         "Every string over a 34-token alphabet up to length 4 (5 thorough) and every raw code point string (surrogates, NUL, U+10FFFF) up to length 5 (6) x 7 flag sets must compile to Ok or Err under catch_unwind with a 10 s watchdog; likewise every prefix / suffix of every C08 seed pattern with 15 cut-off construct openings, and every code point of interest (all with a case partner, encoding-length boundary neighbours, 0..=U+0100; thorough: all 1,114,112) substituted into 20 templates x {optimised, no_opt}, every run over three digits up to length 10 in 18 numeric contexts, and every ordered pair of 18 large properties in 9 class templates; 40 adversarial shapes x sizes up to 65536 (10^6 thorough) x {\"\",u,v} run in child processes (8 MiB / 2 MiB stacks): a stack-exhaustion abort, a panic or a timeout on a small input is a violation; an allocation failure under the 6 GiB cap is a violation for patterns of at most 2^20 code points; runs cut by the harness's caps beyond that envelope are reported as caps, not verdicts.", "4 C07"),
 })
 checks.update({
  "C08": ("model_checking", "exhaustive enumeration of all token strings up to a length bound x three grammar modes, plus all single-token edits of printed patterns, against a reference parser for the ES2025 grammar",
@@ -59,7 +59,7 @@ checks.update({
 })
 checks.update({
  "C19": ("model_checking", "preemption-bounded exhaustive exploration of thread schedules of the real executors under a controlled scheduler (scheduling point = interpreted instruction), plus exhaustive enumeration of query histories",
-         "Real OS threads searching one shared &Regex (or clones) run under a baton scheduler whose scheduling points are the per-instruction step hook; every schedule with at most 2 (3 thorough) preemptions of 24 (40) scenarios is executed and each query's result compared with its sequential result on a fresh compile, with the compiled program's fingerprint unchanged; a recorded schedule is replayed twice as a determinism gate. Every ordered history of 1-3 queries from two 12-query menus on one Regex (the second: case-insensitive backreference queries whose characters alias under truncation or fold across planes) and every buffer-reuse history must give the fresh results. The clause 'Regex, Match, Error are Send + Sync' is decided first by type-checking tools/sendsync; a failure there is the reported violation. A free-running four-thread monitor is included and labelled not exhaustive.", "4 C19"),
+         "Real OS threads searching one shared &Regex (or clones) run under a baton scheduler whose scheduling points are the per-instruction step hook; every schedule with at most 2 (3 thorough) preemptions of 24 (40) scenarios is executed and each query's result compared with its sequential result on a fresh compile, with the compiled program's fingerprint unchanged; a recorded schedule is replayed twice as a determinism gate. Every ordered history of 1-3 steps over a menu of 9 (regex, haystack) pairs with regexes of different modes, in order and with the first step's iterator kept alive across the others, against the reference matcher; every ordered history of 1-3 queries from two 12-query menus on one Regex (the second: case-insensitive backreference queries whose characters alias under truncation or fold across planes) and every buffer-reuse history must give the fresh results. The clause 'Regex, Match, Error are Send + Sync' is decided first by type-checking tools/sendsync; a failure there is the reported violation. A free-running four-thread monitor is included and labelled not exhaustive.", "4 C19"),
 })
 not_applicable = {
 }
